@@ -21,4 +21,4 @@ def gen_cases(run, n, stats=None):
 
 
 def main(run, args):
-    return tv.standard_main(run, args, ID, THEOREMS, gen_cases, 1500, 25000)
+    return tv.standard_main(run, args, ID, THEOREMS, gen_cases, 1000, 25000)
